@@ -149,6 +149,8 @@ type Exec struct {
 	linForms    map[int]linForm
 	oneShotBranch int
 	restarts      int
+	sharedRoots   []value
+	cellNames     map[*value]string
 }
 
 type obsRec struct {
